@@ -43,9 +43,12 @@ class LongGen(F.Gen):
             s += 'z'            # a literal that ends in & is legal but obscures the reports: keep & inside
         return fquote(s, rng.choice(["'", "'", '"']))
 
+    # declared by the raw declarations that program() adds; names with underscores and digits
+    EXTRA_SCALARS = ['local_scalar_variable_1', 'local_scalar_variable_2', 'local_scalar_variable_11', 'iv3', 'iv17']
+
     def long_int(self, d=None):
         d = d or self.rng.choice([3, 4, 4, 5])
-        return self.int_expr(d, self.int_scalars)
+        return self.int_expr(d, self.int_scalars + self.EXTRA_SCALARS)
 
     def long_cond(self, n=None):
         n = n or self.rng.randint(3, 9)
